@@ -225,6 +225,7 @@ def canary_service():
             from rpyc.utils.helpers import restricted
             self.pool = make_pool()
             self.state = 0
+            self.subscribers = []
             # "what the service exposes" includes views made by helpers.restricted(): read-only (wattrs=()), writable
             # for one name, and the default (writable for every readable name)
             names = list(VIEW_NAMES)
@@ -236,6 +237,14 @@ def canary_service():
 
         def exposed_view(self, k):
             return self.views[k]
+
+        def exposed_subscribe(self, cb):
+            self.subscribers.append(cb)
+            return len(self.subscribers)
+
+        def exposed_publish(self, x):
+            # an ordinary publish/subscribe service: every subscriber (a callback some client registered) is called
+            return [cb(x) for cb in self.subscribers]
 
         def on_disconnect(self, conn):
             r = rt.active(conn)
@@ -976,6 +985,50 @@ class Gen:
             out.append(("v", (1, self.seq + 100, (h, args))))
         return out
 
+    def proxy_attr_burst(self):
+        """GETATTR / CALLATTR whose TARGET is one of the peer's own objects (a REMOTE_REF: a proxy on the serving side) and
+        whose name is one that proxies answer from local state; the class names make the proxy's `__class__` resolve to
+        objects of the serving process.  All must be refused like any other denied name."""
+        r = self.r
+        nxt = len(self.out_seqs)
+        cname = r.choice(["builtins.object", "builtins.int", "os.environ", "sys.modules", "handlers_world.HITS", "os.path",
+                          "rpyc.core.protocol.DEFAULT_CONFIG", "builtins.type", "os.environ"])
+        target = (4, (cname, 500 + r.below(50), r.choice([1, 2, 0])))
+        name = r.choice(["____conn__", "____id_pack__", "__class__", "__doc__", "____refcount__", "__dict__", "__weakref__",
+                         "__slots__", "__call__", "__class__", "____conn__"])
+        self.seq += 1
+        if r.chance(2, 3):
+            first = (1, self.seq + 100, (4, (2, (target, (1, name)))))
+        else:
+            first = (1, self.seq + 100, (8, (2, (target, (1, name), (1, ()), (1, ())))))
+        out = [("v", first)]
+        k = nxt
+        if not cname.startswith("builtins."):
+            out.append(("v", (2, k, (1, ()))))          # our answer to HANDLE_INSPECT
+            k += 1
+        for _ in range(r.below(3)):
+            out.append(("v", (2, k, r.choice([(1, False), (1, None), (1, "x")]))))   # answers to whatever it asks next
+            k += 1
+        return out
+
+    def nested_exception_burst(self):
+        """make the serving side wait for US inside a handler (a service method that calls the proxy it is given, or the
+        class round trip of a new proxy) and answer that nested request with an exception naming a builtin class - every
+        BaseException subclass, KeyboardInterrupt / SystemExit / GeneratorExit and their kin included"""
+        import builtins
+        r = self.r
+        nxt = len(self.out_seqs)
+        names = sorted(n for n, v in vars(builtins).items() if isinstance(v, type) and issubclass(v, BaseException))
+        cls = r.choice(names + ["KeyboardInterrupt", "SystemExit", "GeneratorExit", "BaseException"] * 6)
+        root = (3, self.held[0]) if self.held else (3, ("?", 0, 0))
+        self.seq += 1
+        if r.chance(2, 3):
+            first = (1, self.seq + 100, (8, (2, (root, (1, "apply"), (2, ((4, ("builtins.function", 600 + r.below(50), 1)), (1, 5)))))))
+        else:
+            first = (1, self.seq + 100, (1, (2, ((4, ("canary.Foo", 600 + r.below(50), 1)),))))
+        payload = (("builtins", cls), r.choice([(), (1,), ("x", 2)]), (), "tb")
+        return [("v", first), ("v", (3, nxt, payload)), ("v", (1, self.seq + 1100, (1, (1, ("still served?",)))))]
+
     def alias_name_burst(self):
         """the attribute NAME (or CMP operator, or old-slicing method name) by reference: a REMOTE_REF whose class name the
         serving process resolves to str / bytes / int / tuple, followed by the answers a peer would give when asked to
@@ -1100,6 +1153,10 @@ class Gen:
 
     def hostile_burst(self):
         r = self.r
+        if r.chance(1, 12):
+            return self.proxy_attr_burst()
+        if r.chance(1, 12):
+            return self.nested_exception_burst()
         if self.held and r.chance(1, 8):
             return self.alias_name_burst()
         if self.held and r.chance(1, 9):
